@@ -30,6 +30,10 @@ MUTANTS = [
     {"id": "c17-verb-put-as-post", "expect": "fire", "edits": [(F, 'self.adapters, path, "PUT", params, data, headers, raw_response)', 'self.adapters, path, "POST", params, data, headers, raw_response)')]},
     {"id": "c17-prefix-appended", "expect": "fire", "edits": [(F, "        req_args.path = self.prefix + suffix_path", "        req_args.path = suffix_path + self.prefix")]},
     {"id": "c17-authtypes-wrap", "expect": "fire", "edits": [(M, "        if auth_types is None or isinstance(auth_types, str):\n            self.auth_types = [auth_types, ]", "        if auth_types is None or not isinstance(auth_types, str):\n            self.auth_types = [auth_types, ]")]},
+    {"id": "c17-str-body-jsoned", "expect": "fire", "edits": [(F, "            if isinstance(data, str):\n                str_data = data\n            else:", "            if isinstance(data, str) and not data.startswith('{'):\n                str_data = data\n            else:")]},
+    {"id": "c17-body-latin1", "expect": "fire", "edits": [(F, "            req_data = str_data.encode(encoding='utf-8')", "            req_data = str_data.encode(encoding='latin-1', errors='replace')")]},
+    {"id": "c17-content-type-overrides", "expect": "fire", "edits": [(F, "                if 'Content-Type' not in headers:\n                    headers['Content-Type'] = 'application/json'", "                headers['Content-Type'] = 'application/json'")]},
+    {"id": "c17-empty-body-dropped", "expect": "fire", "edits": [(F, "        if data is None:\n            req_data = None", "        if not data:\n            req_data = None")], "note": "b'' / '' / {} / [] / 0 bodies are not sent"},
     # neutral
     {"id": "c17-n-star-list", "expect": "silent", "edits": [(F, "self.adapters = self.own_adapters + self.parent_conn.adapters", "self.adapters = [*self.own_adapters, *self.parent_conn.adapters]")]},
     {"id": "c17-n-dict-copy", "expect": "silent", "edits": [(F, "self.headers = headers.copy() if headers else {}", "self.headers = dict(headers) if headers else {}")]},
